@@ -15,7 +15,11 @@ Observation = the physical lines of the written text, nothing else.
 File stream oracles (all on the physical lines of the written file, read by the comment-aware lexer `logicalC` of the
 specification: everything behind '!' is ignored, REM is never continued, a blank-led line that continues nothing is a comment):
   width <= 80; every flagged line is followed by a blank-led line (`badContinuations`); no instruction object whose own text
-  ends in a continuation mark; lexer(written file) = lexer(unwrapped item texts); BY CONSTRUCTION: the restraint-like
+  ends in a continuation mark; lexer(written file) = lexer(unwrapped item texts); every physical line is classified by the
+  specification (`lineClasses`: instruction = SHELXL keyword, atom, comment = blank-led / REM / '!', include, continuation) and
+  none may be `unknown`; what add_line / replace_line / insert_frag_fend_entry inserted (instructions, blank-led comments,
+  commented-out instructions, REM and '!' comments, hand-made continuations, padded text) is in the file as the same kind of
+  line; BY CONSTRUCTION: the restraint-like
   instructions of the generated input (whatever its layout: breaks anywhere, '=' marks with comments behind them, '=' and
   '!' inside comments) and the texts handed to add_line / replace_line / Command.set / insert_anis are in the file with
   exactly their tokens; no bare number / empty / parameterless keyword line; file text = model text.
@@ -239,11 +243,36 @@ def edit_op(rng, names, restr, natoms):
     if rng.random() < 0.5:      # long texts: the class the writer has to wrap
         while len(text) <= COLS:
             text = restraint_line(rng, names)
-    if r < 0.2:
-        return dict(op='add_line', where=rng.choice(['unit', 'fvar', 'atom', 'first']), text=text)
+    # what kind of line(s) the text is: an instruction, a blank-led comment, a commented-out instruction, a REM / '!'
+    # comment, an instruction with a hand-made continuation, a comment line followed by an instruction
+    kind = rng.choice(['instruction', 'instruction', 'instruction', 'comment', 'commented-out', 'rem', 'bang', 'hand-continued',
+                       'comment+instruction', 'padded'])
+    short = restraint_line(rng, names).split(' !')[0]
+    while len(short) > 60:
+        short = restraint_line(rng, names).split(' !')[0]
+    words = ' '.join(word(rng, rng.randint(2, 8), 'abcdefghijklmnopqrstuvwxyz') for _ in range(rng.randint(2, 7)))
+    if kind == 'comment':
+        text = ' ' * rng.choice([1, 2, 4]) + words.capitalize()
+    elif kind == 'commented-out':
+        text = ' ' + short
+    elif kind == 'rem':
+        text = 'REM ' + words
+    elif kind == 'bang':
+        text = '! ' + words
+    elif kind == 'hand-continued':
+        toks = text.split(' !')[0].split()
+        k = rng.randint(2, max(2, min(len(toks) - 1, 10)))
+        text = ' '.join(toks[:k]) + ' =\n' + ' ' * rng.choice([1, 3, 5]) + ' '.join(toks[k:k + 12])
+    elif kind == 'comment+instruction':
+        text = ' ' + words + '\n' + short
+    elif kind == 'padded':
+        text = short + ' ' * rng.choice([1, 3])
+    if r < 0.25:
+        return dict(op='add_line', where=rng.choice(['unit', 'fvar', 'atom', 'first']), text=text, text_kind=kind)
     nheader = len(restr)
     if r < 0.4 and nheader:
-        return dict(op='replace_line', target=rng.randrange(nheader), text=text)
+        return dict(op='replace_line', target=rng.randrange(nheader), text=text, text_kind=kind)
+    text = restraint_line(rng, names)
     if r < 0.5 and nheader:
         # Command.set(text): the new text of the same instruction (keyword and numeric parameters kept, new atom list)
         j = rng.randrange(nheader)
@@ -407,7 +436,12 @@ def expected_items(shx):
     return items
 
 
-def observe_file(case, tmp):
+def inserted_lines(lx):
+    """(class, blank-led, tokens) of the physical lines of an inserted text that are short enough to be written as they are"""
+    return [[c, pl.startswith(' '), pl.split()] for c, pl in lx['classes'] if len(pl) <= COLS and c != 'blank']
+
+
+def observe_file(case, tmp, oplex):
     from shelxfile import Shelxfile
     shx = Shelxfile()
     text = render_file(case)
@@ -419,6 +453,10 @@ def observe_file(case, tmp):
     # by construction: the token sequences of the restraint-like instructions the file must contain (multiset)
     want = [code_tokens(h) for h in case['header'] if h.split()[0].upper()[:4] in RESTR_KW]
     targets = list(want)        # the generated header instructions, addressed by the edit ops by position
+    want_lines = []             # by construction: (class, blank-led, tokens) of the physical lines the edit ops inserted
+
+    def instructions_of(text):
+        return [l for l in (oplex[text]['logical'] or []) if l and l[0].upper().split('_')[0][:4] in RESTR_KW]
 
     def find_item(toks):
         for it in shx._reslist:
@@ -433,7 +471,7 @@ def observe_file(case, tmp):
         except Exception as e:
             res['stages'].append(dict(name=name, error=f'{type(e).__name__}'))
             return
-        st = dict(name=name, items=items, written=written, want=[list(w) for w in want])
+        st = dict(name=name, items=items, written=written, want=[list(w) for w in want], want_lines=[list(w) for w in want_lines])
         try:
             st['fvars'] = (list(shx.fvars.as_stringlist), str(shx.fvars))
             if not case.get('explicit'):
@@ -448,23 +486,31 @@ def observe_file(case, tmp):
             if op['op'] == 'add_line':
                 pos = dict(unit=lambda: shx.unit.position, fvar=lambda: shx.fvars.position, atom=lambda: atoms[0].index, first=lambda: 0)[op['where']]()
                 shx.add_line(pos, op['text'])
-                want.append(code_tokens(op['text']))
+                want.extend(instructions_of(op['text']))
+                want_lines.extend(inserted_lines(oplex[op['text']]))
             elif op['op'] in ('replace_line', 'set'):
                 old = targets[op['target']]
+                if old is None:
+                    raise LookupError('target was replaced before')
                 obj = find_item(old)
                 if op['op'] == 'set':
                     obj.set(op['text'])          # Command objects only; AttributeError otherwise (op skipped)
+                    targets[op['target']] = code_tokens(op['text'])
                 else:
                     shx.replace_line(obj, op['text'])
+                    targets[op['target']] = None
+                    want_lines.extend(inserted_lines(oplex[op['text']]))
                 want.remove(old)
-                want.append(code_tokens(op['text']))
-                targets[op['target']] = code_tokens(op['text'])
+                want.extend(instructions_of(op['text']))
             elif op['op'] == 'insert_anis':
                 shx.insert_anis(atoms=op['atoms'], residue=op['residue'])
                 want.append((['ANIS' + ('_' + op['residue'] if op['residue'] else '')] + op['atoms'].split()) if op['atoms'] else ['ANIS'])
             elif op['op'] == 'insert_frag':
                 dbatoms = [[f'C{i + 1}', 1, f'{0.1 * i:.5f}', f'{1.0 + 0.25 * i:.5f}', f'{-0.5 * i:.5f}'] for i in range(op['n'])]
                 shx.insert_frag_fend_entry(dbatoms, [1, 1, 1, 90, 90, 90])
+                want_lines.append(['instruction', False, ['FRAG', '17', '1', '1', '1', '90', '90', '90']])
+                want_lines.extend(['atom', False, [str(x) for x in a]] for a in dbatoms)
+                want_lines.append(['instruction', False, ['FEND']])
             elif op['op'] == 'delete':
                 a = atoms[op['atom']]
                 if op['via'] == 'atomid':
@@ -571,7 +617,9 @@ def first_upper(toks):
 def evaluate_files(ctx, cases):
     tmp = tempfile.mkdtemp(prefix='c06_')
     try:
-        obs = [observe_file(c, tmp) for c in cases]
+        texts = sorted({o['text'] for c in cases for o in c['ops'] if 'text' in o})
+        oplex = dict(zip(texts, ctx.driver.batch([dict(p='C06', op='lex', text=t + '\n') for t in texts]))) if texts else {}
+        obs = [observe_file(c, tmp, oplex) for c in cases]
     finally:
         shutil.rmtree(tmp, ignore_errors=True)
     reqs = []
@@ -621,7 +669,8 @@ def evaluate_files(ctx, cases):
             items = [r for k, _, r in rs if k == 'item']
             written = st['written']
             ctx.count(['file', ob['input'], st['name'], [o for o in c['ops'][:si]]], nontrivial=fr['maxlen'] > 70 or '=' in written,
-                      tags=['file:' + cls, 'stage:' + stage, 'maxlen=' + width_class(fr['maxlen'])],
+                      tags=['file:' + cls, 'stage:' + stage, 'maxlen=' + width_class(fr['maxlen'])] +
+                           (['text:' + c['ops'][si - 1]['text_kind']] if si and 'text_kind' in c['ops'][si - 1] else []),
                       sample=dict(stream='file', cls=cls, stage=st['name'], longest=max(written.split('\n'), key=len)) if si == 0 else None)
             payload['actual'] = written
             # 1. width
@@ -670,6 +719,25 @@ def evaluate_files(ctx, cases):
                          f'after {st["name"]} the written file does not hold the generated instruction(s) with their tokens: '
                          f'missing {missing[:2]}, instead {extra[:2]}',
                          dict(payload, expected=missing, actual_logical=extra))
+            # 2e. every physical line is an instruction (SHELXL keyword), an atom, a comment (blank-led, REM, '!'), an include
+            #     or a continuation of the line before it -- classified by the specification, not by the library
+            hist = '+'.join(sorted({o['op'] for o in c['ops'][:si]})) or 'none'
+            unknown = [pl for cl, pl in fr['classes'] if cl == 'unknown']
+            if unknown:
+                ctx.fail(f'C06|file|line-class|unknown|after={stage}',
+                         f'after {st["name"]} the written file has a line that is neither an instruction, an atom, a comment nor a '
+                         f'continuation: {unknown[0]!r}', dict(payload, expected='instruction, atom, comment or continuation', lines=unknown[:5]))
+            # 2f. by construction: what the edit ops put into the file is there as the same kind of line (a blank-led comment
+            #     stays blank-led, a commented-out instruction stays a comment, a hand-made continuation stays one)
+            have = [[cl, pl.startswith(' '), pl.split()] for cl, pl in fr['classes']]
+            lost = [w for w in st['want_lines'] if w not in have]
+            if lost:
+                w = lost[0]
+                same = [h for h in have if h[2] == w[2]]
+                ctx.fail(f'C06|file|inserted-line-class|{w[0]}{"|blank-led" if w[1] else ""}|after={stage}',
+                         f'after {st["name"]} the inserted {w[0]} line {" ".join(w[2])!r} ' +
+                         (f'is written as {same[0][0]}{" (blank-led)" if same[0][1] else " (at column 1)"}' if same else 'is not in the written file as given'),
+                         dict(payload, expected=w, actual_logical=same[:1]))
             # 3. no bare number, no empty line, no keyword without its parameters
             pos = 0
             for (tname, text), ir in zip(st['items'], items):
